@@ -172,6 +172,8 @@ def run(ctx):
         elif i == 3:
             # a three-word compound, then its two-word tail on its own (rare, capitalised, followed by digits)
             pws, cov = gen_passwords.multiword_family(__import__('random').Random(3), ('blue', 'moon', 'star')) + ['Blue12', 'star!', 'moon77'], 0.6
+            # ... and digit runs written with full-width digits beside their ASCII look-alikes
+            pws += ['monkey123', 'monkey\uff11\uff12\uff13', 'dragon77', 'dragon\uff17\uff17', 'shadow\uff14\uff15\uff16', 'x20\uff11\uff19', 'x2019']
         elif i == 2:
             # a fresh parser meets, in its first passwords, two segments of one kind with two new lengths
             pws, cov = gen_passwords.FRESH_LENGTHS_CORPUS + pws, 0.6
